@@ -296,6 +296,7 @@ pub fn by_family(fam: &str, seed: u64) -> Scenario {
         "flowBc" => flow_bc(seed),
         "capRace" => cap_race(seed),
         "ctlB" => ctl_b(seed),
+        "concBc" => conc_bc(seed),
         _ => mix_a(seed, false),
     }
 }
@@ -569,39 +570,50 @@ pub fn cap_race(seed: u64) -> Scenario {
     s.peer_cfg.ack_ping = true;
     s.peer_cfg.grant = "none".into();
     s.peer_cfg.respond = false;
-    let n = rng.gen_range(2..4);
-    let victim = rng.gen_range(0..n);
+    let n: u32 = rng.gen_range(2..4);
+    // the stream that goes away is the first task: with "appfirst" scheduling its calls come first
+    let victim = if rng.gen_bool(0.7) { 0 } else { rng.gen_range(0..n) };
     let how = rng.gen_range(0..5);
-    let amounts = [5000usize, 10000, 25535, 30000, 40000, 65535, 70000];
+    // phase 1: the others use up part of the connection window (written out, nobody waits)
+    let mut left: i64 = 65535;
+    let q2 = n as usize + 1; // the quiescence at which phase 2 happens
     for i in 0..n {
         let mut r = ReqProg::default();
         r.tag = i + 1;
         r.ready = true;
         r.start_q = if i == 0 { None } else { Some(i as usize) };
         let mut ops = vec![];
-        // phase 1 (own quiescence slot i+1): take or ask for part of the connection window
-        match rng.gen_range(0..4) {
-            0 => ops.push(SendOp::Data { n: pick(&mut rng, &amounts), eos: false }),
-            1 => ops.push(SendOp::Reserve { n: pick(&mut rng, &amounts) }),
-            2 => {
-                ops.push(SendOp::Data { n: pick(&mut rng, &amounts), eos: false });
-                ops.push(SendOp::Reserve { n: pick(&mut rng, &amounts) });
+        if i != victim && left > 20000 && rng.gen_bool(0.7) {
+            let k = pick(&mut rng, &[5000i64, 10000, 20000, 40000]).min(left - 5000);
+            ops.push(SendOp::Data { n: k as usize, eos: false });
+            left -= k;
+        }
+        ops.push(SendOp::WaitQ { k: q2 });
+        if i == victim {
+            // takes everything that is left and wants more: partly satisfied, queued for capacity with data unwritten
+            match rng.gen_range(0..3) {
+                0 => ops.push(SendOp::Data { n: (left + pick(&mut rng, &[1i64, 4465, 30000])) as usize, eos: false }),
+                1 => {
+                    ops.push(SendOp::Reserve { n: (left + 10000) as usize });
+                    ops.push(SendOp::PollCapOnce);
+                }
+                _ => {
+                    ops.push(SendOp::Data { n: pick(&mut rng, &[1000usize, 10000]), eos: false });
+                    ops.push(SendOp::Reserve { n: (left + 10000) as usize });
+                }
             }
-            _ => {
-                ops.push(SendOp::Reserve { n: pick(&mut rng, &amounts) });
-                ops.push(SendOp::PollCapOnce);
+        } else {
+            match rng.gen_range(0..3) {
+                0 => ops.push(SendOp::Reserve { n: pick(&mut rng, &[1000usize, 10000, 30000]) }),
+                1 => ops.push(SendOp::Data { n: pick(&mut rng, &[1000usize, 10000, 30000]), eos: false }),
+                _ => {
+                    ops.push(SendOp::Reserve { n: pick(&mut rng, &[1000usize, 10000, 30000]) });
+                    ops.push(SendOp::PollCapOnce);
+                }
             }
         }
-        // phase 2 (all at quiescence n+1, without the connection being polled in between): more demand
-        ops.push(SendOp::WaitQ { k: n as usize + 1 });
-        match rng.gen_range(0..3) {
-            0 => ops.push(SendOp::Data { n: pick(&mut rng, &amounts), eos: false }),
-            1 => ops.push(SendOp::Reserve { n: pick(&mut rng, &amounts) }),
-            _ => {}
-        }
-        ops.push(SendOp::PollCapOnce);
         // phase 3: the victim leaves by itself (variants 1..4); variant 0: the peer resets it
-        ops.push(SendOp::WaitQ { k: n as usize + 2 });
+        ops.push(SendOp::WaitQ { k: q2 + 1 });
         if i == victim {
             match how {
                 1 => ops.push(SendOp::Reset { code: 8 }),
@@ -612,32 +624,41 @@ pub fn cap_race(seed: u64) -> Scenario {
             }
         }
         ops.push(SendOp::PollCapOnce);
-        ops.push(SendOp::WaitQ { k: n as usize + 4 });
+        ops.push(SendOp::WaitQ { k: q2 + 3 });
         ops.push(SendOp::PollCapOnce);
-        ops.push(SendOp::WaitQ { k: n as usize + 6 });
+        ops.push(SendOp::WaitQ { k: q2 + 5 });
         r.ops = ops;
-        r.read = ReadPol { idle: true, hold_q: Some(n as usize + 6), ..Default::default() };
+        r.read = ReadPol { idle: true, hold_q: Some(q2 + 5), ..Default::default() };
         s.reqs.push(r);
     }
     let mut steps = vec![];
-    for _ in 0..(n + 1) {
+    // the peer's reset either races with the phase-2 calls (same quiescence: the connection task may read it
+    // before it has written what was just queued) or comes one quiescence later
+    let racing = how == 0 && rng.gen_bool(0.6);
+    let noop = || PeerStep::Auto { ack_settings: None, ack_ping: None, grant: None, respond: None };
+    for i in 0..q2 {
         steps.push(PeerStep::WaitQ);
-        steps.push(PeerStep::Auto { ack_settings: None, ack_ping: None, grant: None, respond: None });
+        if racing && i == q2 - 1 {
+            steps.push(PeerStep::Rst { sid: 1 + 2 * victim, code: pick(&mut rng, &CODES) });
+        } else {
+            steps.push(noop());
+        }
     }
     steps.push(PeerStep::WaitQ);
-    if how == 0 {
+    if how == 0 && !racing {
         steps.push(PeerStep::Rst { sid: 1 + 2 * victim, code: pick(&mut rng, &CODES) });
     } else {
-        steps.push(PeerStep::Auto { ack_settings: None, ack_ping: None, grant: None, respond: None });
+        steps.push(noop());
     }
     steps.push(PeerStep::WaitQ);
-    steps.push(PeerStep::Auto { ack_settings: None, ack_ping: None, grant: None, respond: None });
+    steps.push(noop());
     steps.push(PeerStep::WaitQ);
     // a little more connection window at the end: whoever still waits must get it
     steps.push(PeerStep::Wu { sid: 0, inc: pick(&mut rng, &[1000u32, 20000, 65535]) });
     steps.push(PeerStep::WaitQ);
     s.peer = steps;
     s.drop_sr_when_done = true;
+    s.sched.then = pick(&mut rng, &["random", "appfirst", "appfirst"]).to_string();
     s
 }
 
@@ -706,5 +727,77 @@ pub fn ctl_b(seed: u64) -> Scenario {
         s.env.push(EnvStep { at: "q".into(), n: 2, op: EnvOp::Conn { ep: real, op: "initial_window".into(), n: pick(&mut rng, &[1000u32, 100000]) } });
     }
     s.drop_sr_when_done = true;
+    s
+}
+
+// ---------------------------------------------------------------------------
+// Mode Bc: the peer's MAX_CONCURRENT_STREAMS changes while streams are open (C05): limits 0, 1, small,
+// lowered below the number of open streams, raised again; requests beyond the limit must wait and go out
+// as soon as earlier streams close (END_STREAM both ways, reset by either side, dropped handles).
+pub fn conc_bc(seed: u64) -> Scenario {
+    let mut rng = StdRng::seed_from_u64(seed ^ 0xC0_4C);
+    let mut s = Scenario::default();
+    s.name = format!("concBc-{}", seed);
+    s.mode = "Bc".into();
+    s.sched.seed = seed;
+    let l0 = pick(&mut rng, &[0u32, 1, 2, 3, 100]);
+    s.peer_cfg.settings = if rng.gen_bool(0.7) { vec![(3, l0)] } else { vec![] };
+    s.peer_cfg.ack_settings = true;
+    s.peer_cfg.ack_ping = true;
+    s.peer_cfg.grant = "all".into();
+    s.peer_cfg.respond = true; // the scripted server answers 200/END_STREAM once a request has ended
+    if rng.gen_bool(0.3) {
+        s.ccfg.initial_max_send_streams = Some(pick(&mut rng, &[0usize, 1, 2, 5]));
+    }
+    let nq = 6usize;
+    let nreq = rng.gen_range(3..8);
+    for i in 0..nreq {
+        let mut r = ReqProg::default();
+        r.tag = i + 1;
+        r.ready = rng.gen_bool(0.6);
+        let start = rng.gen_range(0..4usize);
+        r.start_q = if start == 0 { None } else { Some(start) };
+        // how long the stream stays open, and how it ends
+        let end_q = start + rng.gen_range(1..4);
+        let mut ops = vec![];
+        if rng.gen_bool(0.3) {
+            r.eos = true;
+        } else {
+            if rng.gen_bool(0.5) {
+                ops.push(SendOp::Data { n: pick(&mut rng, &[0usize, 10, 1000]), eos: false });
+            }
+            ops.push(SendOp::WaitQ { k: end_q.min(nq) });
+            ops.push(match rng.gen_range(0..5) {
+                0 => SendOp::Reset { code: pick(&mut rng, &CODES) },
+                1 => SendOp::Drop,
+                _ => SendOp::Data { n: 0, eos: true },
+            });
+        }
+        r.ops = ops;
+        if rng.gen_bool(0.15) {
+            r.read.drop_head = true;
+        }
+        s.reqs.push(r);
+    }
+    let mut steps = vec![];
+    for q in 1..=nq {
+        steps.push(PeerStep::WaitQ);
+        match rng.gen_range(0..6) {
+            0 | 1 => steps.push(PeerStep::Settings { vals: vec![(3, pick(&mut rng, &[0u32, 1, 2, 3, 10]))] }),
+            2 => {
+                steps.push(PeerStep::Settings { vals: vec![(3, pick(&mut rng, &[0u32, 1, 2]))] });
+                steps.push(PeerStep::Settings { vals: vec![(3, pick(&mut rng, &[1u32, 3, 100]))] });
+            }
+            3 if q > 1 => steps.push(PeerStep::Rst { sid: 1 + 2 * rng.gen_range(0..nreq), code: pick(&mut rng, &CODES) }),
+            _ => steps.push(PeerStep::Auto { ack_settings: None, ack_ping: None, grant: None, respond: None }),
+        }
+    }
+    // finally lift the limit so that everything queued can go out
+    steps.push(PeerStep::WaitQ);
+    steps.push(PeerStep::Settings { vals: vec![(3, 100)] });
+    steps.push(PeerStep::WaitQ);
+    s.peer = steps;
+    s.drop_sr_when_done = true;
+    s.sched.then = pick(&mut rng, &["random", "appfirst"]).to_string();
     s
 }
